@@ -567,12 +567,14 @@ func (a *array) getLen() uintptr {
 }
 
 func (a *array) next(i int64) (next int64, v Value, ok bool) {
-	ok = a != nil && 0 <= i && i <= int64(a.len)
+	// Any index within the array's capacity is a valid position: clearing the
+	// field just visited may have shrunk a.len below i.
+	ok = a != nil && 0 <= i && i <= int64(len(a.values))
 	if !ok {
 		return
 	}
 	for {
-		if i == int64(a.len) {
+		if i >= int64(a.len) {
 			return
 		}
 		v = a.values[i]
